@@ -59,7 +59,8 @@ def model_and_replay(run, configs, pid_key):
             if "mismatch" in o:
                 run.violation("%s/lex/replay" % pid_key, "tokenizer disagrees with Lexer spec on %r: %s" % (o["input"], o["why"]),
                               {"family": "lex", "ops": ops, "record": recs[o["mismatch"]], "got": o.get("got"), "why": o["why"]})
-        run.leg("R:Lexer/exh/" + name, replayed=len(recs), mismatches=sum(1 for o in out if "mismatch" in o))
+        run.leg("R:Lexer/exh/" + name, replayed=len(recs), mismatches=sum(1 for o in out if "mismatch" in o),
+                error_variant_agree=summ[0]["summary"].get("variant_agree", 0), error_variant_drift=summ[0]["summary"].get("variant_differ", 0))
     for a in ACTIONS:
         if cov.get(a, 0) == 0:
             raise tlc.ToolError("vacuity guard: Lexer action %s never taken" % a)
